@@ -78,13 +78,25 @@ class C11(Prop):
             case["arrays"] = arrs
         else:
             case["arrays"] = [self.gen_array(rng, ndim, allnan=rng.random() < 0.08) for _ in range(n)]
-            if rng.random() < 0.15:  # a common translation, also large
-                t = [rng.randint(-1000, 1000) for _ in range(ndim)]
+            if rng.random() < 0.25:  # a common translation, also large and beyond the exactly representable doubles
+                big = rng.random() < 0.4
+                t = [rng.choice([2 ** 53, -(2 ** 53), 2 ** 53 + 2, 3 - 2 ** 55, 2 ** 60 + 1, -(2 ** 62) + 5]) + rng.randint(-3, 3)
+                     if big else rng.randint(-1000, 1000) for _ in range(ndim)]
                 for a in case["arrays"]:
                     a["off"] = [o + d for o, d in zip(a["off"], t)]
         return case
 
+    def many(self, n, mode, fill):
+        """n one-pixel images on one pixel of a 1x2 base (visit counters of any width must not wrap)"""
+        arrs = [{"off": [0, 0], "shape": [1, 2], "data": [8, None]}]
+        arrs += [{"off": [0, 0], "shape": [1, 1], "data": [(i % 7) * 4]} for i in range(n)]
+        return {"kind": "plain", "ndim": 2, "mode": mode, "fill": fill, "arrays": arrs}
+
     def targeted(self, tier):
+        # many contributions to one pixel: past 2^8 always, past 2^16 in the thorough tier
+        for n in ([255, 256, 257] if tier == "quick" else [255, 256, 257, 65535, 65536]):
+            for mode in ("mean", "sum"):
+                yield self.many(n, mode, None if n % 2 else 40)
         ones = {"off": [0, 0], "shape": [2, 2], "data": [4, 4, 4, 4]}
         twos = {"off": [1, 1], "shape": [2, 2], "data": [8, 8, 8, 8]}
         nanarr = {"off": [1, 1], "shape": [2, 2], "data": [None, 8, 8, None]}
@@ -139,6 +151,10 @@ class C11(Prop):
                 feats.add("negative-offset")
             if any(all(v is None for v in a["data"]) for a in case["arrays"]):
                 feats.add("whole-nan-array")
+            if any(abs(o) >= 2 ** 53 for a in case["arrays"] for o in a["off"]):
+                feats.add("offset>=2^53")
+            if len(case["arrays"]) > 255:
+                feats.add("contributions>255" if len(case["arrays"]) < 60000 else "contributions>=65535")
             nontrivial = {"overlap>=2", "nan-only-pixel", "uncovered-pixel"} & feats
             return outcome(impl, model, spec, features=feats if nontrivial else [])
         else:
@@ -173,6 +189,14 @@ class C11(Prop):
 
     def shrink(self, case):
         arrs = case["arrays"]
+        if len(arrs) > 8:  # long lists: drop halves, quarters, ... before single arrays
+            n = len(arrs)
+            k = n // 2
+            while k >= 4:
+                for start in range(0, n, k):
+                    yield {**case, "arrays": arrs[:start] + arrs[start + k:]}
+                k //= 2
+            return
         if len(arrs) > 1:
             for i in range(len(arrs)):
                 yield {**case, "arrays": arrs[:i] + arrs[i + 1:]}
